@@ -90,8 +90,8 @@ func (s *BadSmellListener) EnterClassDeclaration(ctx *ClassDeclarationContext) {
 
 func getTypeData(typ *TypeTypeContext) string {
 	var typeData string
-	classOrInterface := typ.ClassOrInterfaceType().(*ClassOrInterfaceTypeContext)
-	if classOrInterface != nil {
+	classOrInterface, ok := typ.ClassOrInterfaceType().(*ClassOrInterfaceTypeContext)
+	if ok && classOrInterface != nil {
 		identifiers := classOrInterface.AllIdentifier()
 		typeData = identifiers[len(identifiers)-1].GetText()
 	}
@@ -176,8 +176,12 @@ func (s *BadSmellListener) EnterFieldDeclaration(ctx *FieldDeclarationContext) {
 
 func (s *BadSmellListener) EnterLocalVariableDeclaration(ctx *LocalVariableDeclarationContext) {
 	typ := ctx.GetChild(0).(antlr.ParseTree).GetText()
-	variableName := ctx.GetChild(1).GetChild(0).GetChild(0).(antlr.ParseTree).GetText()
-	localVars[variableName] = typ
+	if ctx.GetChild(1) != nil {
+		if ctx.GetChild(1).GetChild(0) != nil && ctx.GetChild(1).GetChild(0).GetChild(0) != nil {
+			variableName := ctx.GetChild(1).GetChild(0).GetChild(0).(antlr.ParseTree).GetText()
+			localVars[variableName] = typ
+		}
+	}
 }
 
 func (s *BadSmellListener) EnterMethodDeclaration(ctx *MethodDeclarationContext) {
@@ -298,7 +302,7 @@ func countMethodIfSwitch(statement IBlockStatementContext, bsInfo *bs_domain.Fun
 }
 
 func (s *BadSmellListener) EnterAnnotation(ctx *AnnotationContext) {
-	if currentClzType == "Class" && ctx.QualifiedName().GetText() == "Override" {
+	if currentClzType == "Class" && ctx.QualifiedName() != nil && ctx.QualifiedName().GetText() == "Override" {
 		currentClassBs.OverrideSize++
 	}
 }
